@@ -575,6 +575,26 @@ def render_uc(recs):
     return out
 
 
+def uc_lines(c):
+    """the text of a uc case: the rendered records, or (key 'raw') those with one H/S/L line damaged: a field
+    missing or blank, which only the text-level model (coq/Model/UcText.v uc_record) can see"""
+    lines = render_uc(c['recs'])
+    raw = c.get('raw')
+    if raw is not None:
+        j, how = raw
+        f = lines[j].split('\t')
+        if how == 0:
+            f = f[:9]
+        elif how == 1:
+            f = f[:5]
+        elif how == 2:
+            f[8] = '  '
+        else:
+            f[9] = ' '
+        lines[j] = '\t'.join(f)
+    return lines
+
+
 def render_fasta(pairs):
     out = []
     for new, old in pairs:
@@ -693,7 +713,7 @@ def _run_impl(c):
             arg = io.StringIO('\n'.join(lines) + ('\n' if lines else ''))
         return _res(lambda: Table.from_adjacency(arg))
     if k == 'uc':
-        lines = render_uc(c['recs'])
+        lines = uc_lines(c)
         via = c['via']
         if via == 'parse_list':
             return _uc(lambda: parse_uc([x + '\n' for x in lines]))
@@ -755,7 +775,10 @@ def encode(c):
     kinds = {'H': 0, 'S': 1, 'L': 2}
     recs = [[kinds.get(kk, 3), enc_str(q), enc_str(t)] for kk, q, t, _ in c['recs']]
     fa = c.get('fasta') if c['via'] in ('from_uc', 'cli') else None
-    return [2, recs, [] if fa is None else [[[enc_str(old), enc_str(new)] for new, old in fa]]]
+    # the lines as the importer reads them; mode 0: the records above are these lines (the model is run at both
+    # levels and must agree with itself), 1: a damaged line, the text-level model alone
+    return [2, recs, [] if fa is None else [[[enc_str(old), enc_str(new)] for new, old in fa]],
+            [enc_str(x + '\n') for x in uc_lines(c)], 0 if c.get('raw') is None else 1]
 
 
 def dec_result(tree, cd, zq=False):
@@ -781,6 +804,8 @@ def decode(tree, c):
         return dec_result(tree, cd, 'ctor')
     if k == 'adj':
         return dec_result(tree, cd)
+    if tree == [77]:
+        return ['model-levels-disagree', 'from_uc on the records != from_uc_text on the lines']
     if tree[0] == -1:
         return ['err', tree[1]]
     o, s, m = tree[1]
@@ -975,7 +1000,11 @@ def gen_uc(rng):
             fasta.append(['otuX', fasta[0][1]])
         elif r < 0.5:
             fasta.append(['otuY', 'unrelated_9'])
-    return {'kind': 'uc', 'recs': recs, 'via': via, 'fasta': fasta}
+    c = {'kind': 'uc', 'recs': recs, 'via': via, 'fasta': fasta}
+    live = [j for j, r in enumerate(recs) if r[0] in ('H', 'S', 'L')]
+    if live and rng.random() < 0.08:
+        c['raw'] = [rng.choice(live), rng.randrange(4)]
+    return c
 
 
 def fixed_zero_cases():
@@ -1174,6 +1203,10 @@ def oracle(c, obs):
             if s not in samp_ids:
                 samp_ids.append(s)
             counts[(o, s)] = counts.get((o, s), 0) + 1
+    if c.get('raw') is not None:
+        if obs[0] == 'ok':
+            fails.append('uc input with an H/S/L line that lacks the query or the target field produced a table')
+        return fails
     if bad:
         if obs[0] == 'ok':
             fails.append('uc input with a query label without underscore produced a table')
